@@ -339,15 +339,18 @@ def bio_species(animal_type):
     return animal_type.replace("milk_", "").replace("meat_", "")
 
 
-def oracle_feed_call(c, tol=1e-9, effs=None):
+def oracle_feed_call(c, tol=1e-9, effs=None, supply=None):
     """C07 on one observed `feed_the_species` call (dict of Trace.feed_calls); returns list of (key, what).
     `effs` = (grass, feed) efficiencies for synthetic species; the herds of `main()` are judged with the
-    0.6 / 0.8 of the property text."""
+    0.6 / 0.8 of the property text.  `supply` = (grass, feed) the whole month started with: the scale of
+    the float noise in what a later species is offered.  Keys starting with `near-tie:` are decisions the
+    code took on a margin below the tolerance (exact arithmetic cannot exhibit them): counted, not violations."""
     bad = []
     EFF_GRASS, EFF_FEED = effs or (0.6, 0.8)
     need, pop = c["need"], c["pop"]
     g_eaten, f_eaten = c["grassIn"] - c["grassLeft"], c["feedIn"] - c["feedLeft"]
-    sg, sf = tol * max(1e-12, abs(c["grassIn"])), tol * max(1e-12, abs(c["feedIn"]))
+    sg = tol * max(1e-12, abs(c["grassIn"]), abs(supply[0]) if supply else 0.0)
+    sf = tol * max(1e-12, abs(c["feedIn"]), abs(supply[1]) if supply else 0.0)
     if g_eaten < -sg or c["grassLeft"] < -sg:
         bad.append(("grass-overuse", "more grass used than supplied (in %r, left %r)" % (c["grassIn"], c["grassLeft"])))
     if f_eaten < -sf or c["feedLeft"] < -sf:
@@ -355,7 +358,7 @@ def oracle_feed_call(c, tol=1e-9, effs=None):
     if not c["rum"] and abs(g_eaten) > sg:
         bad.append(("grass-to-non-ruminant", "a non-ruminant ate grass (%r)" % g_eaten))
     delivered = EFF_GRASS * g_eaten + EFF_FEED * f_eaten
-    sn = tol * max(1e-12, abs(need), EFF_GRASS * abs(c["grassIn"]), EFF_FEED * abs(c["feedIn"]))
+    sn = tol * max(1e-12, abs(need)) + EFF_GRASS * sg + EFF_FEED * sf
     if delivered > need + sn:
         bad.append(("overdelivery", "net energy delivered %r exceeds the requirement %r" % (delivered, need)))
     if abs(c["balance"] - (need - delivered)) > sn:
@@ -372,7 +375,13 @@ def oracle_feed_call(c, tol=1e-9, effs=None):
         frac = min(1.0, max(0.0, 1.0 - c["balance"] / need))
         met = c["balance"] <= 0.0
         if met and abs(fed - pop) > sp:
-            bad.append(("fed-count", "requirement met but %r of %r counted as fed" % (fed, pop)))
+            exhausted = c["feedLeft"] == 0 and (c["grassLeft"] == 0 or not c["rum"])
+            if exhausted and abs(fed - pop) <= 0.5 + sp:
+                # supplies one ulp short of the requirement: the code took the "not enough" branch and the
+                # subtraction then rounded the energy owed to exactly 0; the count is within half an animal
+                bad.append(("near-tie:met-by-rounding", "requirement met only after rounding: %r of %r counted as fed" % (fed, pop)))
+            else:
+                bad.append(("fed-count", "requirement met but %r of %r counted as fed" % (fed, pop)))
         if not met and not (abs(fed - pop * frac) <= 0.5 + sp):
             bad.append(("fed-count", "animals fed %r is not the herd %r scaled by the delivered fraction %r (within half an animal)" % (fed, pop, frac)))
     else:
@@ -384,6 +393,8 @@ def oracle_feed_call(c, tol=1e-9, effs=None):
 def oracle_feed_month(calls, tol=1e-9):
     """C07 priority + chaining over the calls of one month (list order = serving order)"""
     bad = []
+    g0 = abs(calls[0]["grassIn"]) if calls else 0.0
+    f0 = abs(calls[0]["feedIn"]) if calls else 0.0
     for i in range(1, len(calls)):
         a, b = calls[i - 1], calls[i]
         if not (close(a["grassLeft"], b["grassIn"], 1e-12, 0.0) and close(a["feedLeft"], b["feedIn"], 1e-12, 0.0)):
@@ -394,9 +405,9 @@ def oracle_feed_month(calls, tol=1e-9):
         for i in range(j):
             ci = calls[i]
             unmet = ci["balance"] > tol * max(1e-12, abs(ci["need"]))
-            if fj > tol * max(1e-12, abs(cj["feedIn"])) and unmet:
+            if fj > tol * max(1e-12, abs(cj["feedIn"]), f0) and unmet:
                 bad.append(("priority-feed", "%s received feed while %s (served earlier) was left short" % (cj["animal"], ci["animal"])))
-            if gj > tol * max(1e-12, abs(cj["grassIn"])) and unmet and ci["rum"]:
+            if gj > tol * max(1e-12, abs(cj["grassIn"]), g0) and unmet and ci["rum"]:
                 bad.append(("priority-grass", "%s received grass while the ruminant %s (served earlier) was left short" % (cj["animal"], ci["animal"])))
     return bad
 
@@ -572,9 +583,13 @@ def main_case(ctx, case, prop, compare=True):
             if dict(a.digestion_efficiency) != {"grass": 0.6, "feed": 0.8}:
                 ctx.violation("efficiency-constants", "%s digests grass/feed with %r, the property says 0.6 / 0.8" % (a.animal_type, a.digestion_efficiency),
                               dict(case, species=a.animal_type))
-        for c in calls:
-            for key, what in oracle_feed_call(c):
-                ctx.violation("main/feed_the_species:" + key, what, dict(case, call=c))
+        for ci_, c in enumerate(calls):
+            m_ = ci_ // ns
+            for key, what in oracle_feed_call(c, supply=(grass[m_], feed[m_])):
+                if key.startswith("near-tie:"):
+                    ctx.count(key)
+                else:
+                    ctx.violation("main/feed_the_species:" + key, what, dict(case, call=c))
             ctx.count("feed-branch:" + ("none-needed" if c["need"] == 0 else "met" if c["balance"] == 0 else "partial"))
             partial += c["balance"] > 0
         for m in range(n):
